@@ -198,7 +198,7 @@ def do_composite_search(req):
                    ev('RealFaultAddressExternal', [0x2000, (42 << 16) | (1 << 8) | 3, 7, 8]),
                    ev('RealFaultAddressPurgeable', [0x3000, (43 << 16) | (1 << 8) | 1, 0, 0]),
                    ev('RealFaultAddressSharedCache', [0x4000, (44 << 16) | (5 << 8) | 4, 0, 0]),
-                   ev('MACH_sched', [0, 0, 0, 0]), ev('VFS_LOOKUP', [1, 2, 3, 4], 3)]
+                   ev('MACH_SCHED', [0, 0, 0, 0]), ev('VFS_LOOKUP', [1, 2, 3, 4], 3)]
         heads = [([0x10, 0x20, 0, 0], [0, 0, r, ft]) for r in (0, 1) for ft in (1, 2)]
     elif name == 'DBG_DYLD_TIMING_LAUNCH_EXECUTABLE':
         palette = [ev('DYLD_uuid_map_a', [1, 2, 0x5000, 1]), ev('DYLD_uuid_map_a', [3, 4, 0x1000, 1]),
@@ -208,7 +208,7 @@ def do_composite_search(req):
     else:
         palette = [ev('PERF_THD_Data', [11, 12, 13, 1]), ev('PERF_STK_UHdr', [1, 3, 0, 0]), ev('PERF_STK_UHdr', [1, 6, 0, 0]),
                    ev('PERF_STK_UData', [0xa1, 0xa2, 0xa3, 0xa4]), ev('PERF_STK_UData', [0xb1, 0xb2, 0xb3, 0xb4]),
-                   ev('MACH_sched', [0, 0, 0, 0])]
+                   ev('MACH_SCHED', [0, 0, 0, 0])]
         heads = [([fl, 9, 0, 0], [0, 0, 0, 0]) for fl in (0, 1, 8, 9, 0x0b)]
     tried = 0
     cases = []
@@ -305,3 +305,81 @@ def do_filters(req):
 
 
 HANDLERS.update({'filters': do_filters})
+
+
+def _demo_stream(eid, tid):
+    """a small stream with traces of several classes; `eid` (if decodable) appears as a single event of thread tid"""
+    import struct
+    from pykdebugparser.trace_codes import default_trace_codes
+    inv = {v: k for k, v in default_trace_codes().items()}
+    t2 = tid ^ 1
+    out = []
+
+    def add(name_or_id, tid_, q, vals=(0, 0, 0, 0), data=None):
+        i = inv[name_or_id] if isinstance(name_or_id, str) else name_or_id
+        from pykdebugparser.kevent import from_kd_buf
+        d = data if data is not None else struct.pack('<QQQQ', *vals)
+        out.append(from_kd_buf(struct.pack('<Q32sQIIQ', len(out), d, tid_, (i & 0xfffffffc) | q, 0, 0)))
+    add('TRACE_STRING_GLOBAL', tid, 3, data=struct.pack('<QQ', 0, 5) + b'libfoo.dylib'.ljust(16, b'\0'))
+    add('BSC_open', tid, 1, (0, 0x601, 0, 0))
+    add('VFS_LOOKUP', tid, 3, data=struct.pack('<Q', 77) + b'/tmp/a'.ljust(24, b'\0'))
+    add('BSC_open', tid, 2, (0, 3, 0, 0))
+    add('MACH_SCHED', t2, 0, (1, 2, 3, 4))
+    add('BSC_read', t2, 1, (3, 0x1000, 16, 0))
+    add('BSC_read', t2, 2, (0, 16, 0, 0))
+    add('TRACE_DATA_NEWTHREAD', tid, 0, (99, 42, 0, 0))
+    add('TRACE_STRING_NEWTHREAD', tid, 0, data=b'procname'.ljust(32, b'\0'))
+    add('DBG_DYLD_TIMING_DLOPEN', tid, 1, (0, 5, 1, 0))
+    add('DBG_DYLD_TIMING_DLOPEN', tid, 2, (0, 9, 0, 0))
+    add(eid, tid, 0, (1, 2, 3, 4))
+    add('VFS_LOOKUP', t2, 3, data=struct.pack('<Q', 78) + b'/tmp/b'.ljust(24, b'\0'))
+    return out
+
+
+def do_traces_filters(req):
+    import copy
+    import pykdebugparser.pykdebugparser as M
+    cfg = dict(req['config'])
+    tid = req.get('tid', 5)
+    if tid < 2:
+        if cfg.get('filter_tid') == tid:
+            cfg['filter_tid'] = 5
+        tid = 5
+    stream = _demo_stream(req['eventid'], tid)
+
+    class FakeParser:
+        def __init__(self, *a, **k):
+            pass
+
+        def parse(self, reader):
+            return iter(list(stream))
+    M.KdBufParser = FakeParser
+
+    def run(fc, fsc, tid, proc, parser=None):
+        p = parser or M.PyKdebugParser()
+        p.filter_tid, p.filter_process, p.filter_class, p.filter_subclass = tid, proc, fc, fsc
+        return p, [(t.ktraces[0].eventid, t.ktraces[0].tid, str(t)) for t in p.traces(None)]
+    out = {'raised': None}
+    try:
+        _, unf = run([], [], None, None)
+        fc, fsc = list(cfg.get('filter_class') or []), list(cfg.get('filter_subclass') or [])
+        fc0, fsc0 = list(fc), list(fsc)
+        p, got = run(fc, fsc, cfg.get('filter_tid'), cfg.get('filter_process'))
+        residue = (fc != fc0) or (fsc != fsc0)
+        _, again = run(fc, fsc, cfg.get('filter_tid'), cfg.get('filter_process'), parser=p)
+
+        def allows(eid, tid):
+            if cfg.get('filter_tid') is not None and tid != cfg['filter_tid']:
+                return False
+            return (not fc0 and not fsc0) or (eid >> 24) in fc0 or (eid >> 16) in fsc0
+        exp = [t for t in unf if allows(t[0], t[1])]
+        out.update({'got': [t[2] for t in got], 'expected': [t[2] for t in exp], 'caller_lists_after': [fc, fsc], 'second_call': [t[2] for t in again]})
+        out['violates'] = residue or got != exp or again != got
+        out['residue'] = residue
+    except BaseException as ex:  # noqa
+        out['raised'] = '%s: %s' % (type(ex).__name__, ex)
+        out['violates'] = True
+    return out
+
+
+HANDLERS.update({'traces_filters': do_traces_filters})
